@@ -157,6 +157,37 @@ class SimOS(types.ModuleType):
                 return
         raise SimUnsupported("os.kill of a process outside the simulation (pid %s)" % pid)
 
+    def waitpid(self, pid, options=0):
+        """os.waitpid on simulated children of the calling process (a child whose status is taken here is
+        lost to multiprocessing: its Process object reports exitcode None / alive for ever)"""
+        w = simmp.WORLD
+        if w is None:
+            raise SimUnsupported("os.waitpid outside a simulation")
+        me = w.current_proc()
+        kids = [p for p in w.procs if p.spawner is me and not p.reaped_by_other and not p.status_known and (pid in (-1, 0) or p.pid_ == pid)]
+        if not kids:
+            raise ChildProcessError(10, "No child processes")
+
+        def status(p):
+            c = p._exitcode
+            return (-c) if c < 0 else ((c & 0xFF) << 8)
+
+        dead = [p for p in kids if p.dead]
+        if options & self._real.WNOHANG:
+            w.seam(Op("waitpid-nohang", str(pid)))
+            dead = [p for p in kids if p.dead and not p.reaped_by_other and not p.status_known]
+            if not dead:
+                return (0, 0)
+        else:
+            w.seam(Op("waitpid", str(pid), can_run=lambda: any(p.dead for p in kids)))
+            dead = [p for p in kids if p.dead and not p.reaped_by_other and not p.status_known]
+            if not dead:
+                raise ChildProcessError(10, "No child processes")
+        p = dead[0]
+        p.reaped_by_other = True
+        w.note_probe("child_reaped_by_waitpid")
+        return (p.pid_, status(p))
+
     def _exit(self, code=0):
         w = simmp.WORLD
         if w is None or w.current_proc() is w.parent:
@@ -168,7 +199,7 @@ class SimOS(types.ModuleType):
         raise SimKilled()
 
     def __getattr__(self, name):
-        if name in ("fork", "forkpty", "waitpid", "wait", "pipe", "abort", "execv", "execve", "spawnv", "posix_spawn", "killpg"):
+        if name in ("fork", "forkpty", "wait", "pipe", "abort", "execv", "execve", "spawnv", "posix_spawn", "killpg"):
             raise SimUnsupported("os.%s" % name)
         return getattr(self._real, name)
 
@@ -197,7 +228,7 @@ def scan_imports(path):
                 pass
     # direct process control through os
     src = open(path).read()
-    for needle in ("os.fork", "os.waitpid", "os.pipe", "os.abort", "os.exec", "os.spawn", "os.killpg", "signal.alarm", "signal.setitimer",
+    for needle in ("os.fork", "os.wait(", "os.pipe", "os.abort", "os.exec", "os.spawn", "os.killpg", "signal.alarm", "signal.setitimer",
                    "signal.pthread_", "signal.raise_signal", "signal.sigwait", "signal.pause"):
         if needle in src:
             bad.append(needle)
